@@ -76,6 +76,7 @@ func init() {
 	RegisterKind("emit-misattributed", "C05", "C02", "C04")
 	RegisterKind("emit-spontaneous", "C01", "C02", "C04", "C05")
 	RegisterKind("emit-badchannel", "C08", "C05")
+	RegisterKind("emit-chan-unbound", "C08", "C02", "C07")
 	RegisterKind("emit-garbage", "C05", "C09")
 	// responses (C19)
 	RegisterKind("resp-uncorrelated", "C19", "C04")
@@ -377,11 +378,16 @@ func (m *Model) Refresh(c *RawClient, lifetime *uint32) *wire.Msg {
 // CreatePermission performs a CreatePermission and updates/checks the model.
 func (m *Model) CreatePermission(c *RawClient, peers ...*net.UDPAddr) *wire.Msg {
 	a, st := m.Alloc(c)
+	mapped := c.MapPeersV6
+	c.MapPeersV6 = false
 	resp, _ := m.do(c, wire.MethodCreatePermission, func(b *wire.Builder) {
 		for _, p := range peers {
-			b.AddXorAddr(wire.AttrXORPeerAddress, p.IP, p.Port)
+			b.Add(wire.AttrXORPeerAddress, wire.EncodeXorAddr(p.IP, p.Port, b.TID, mapped && p.IP.To4() != nil))
 		}
 	})
+	if mapped {
+		m.Rec.FP("createperm/peer-as-ipv4-mapped-ipv6")
+	}
 	code := codeOf(resp)
 	m.Rec.Tracef("%s CreatePermission(%v) alloc=%s -> %d", c.Name, peers, st, code)
 	m.Rec.Ev("req/createpermission")
@@ -479,10 +485,15 @@ func (m *Model) ChannelBind(c *RawClient, num uint16, peer *net.UDPAddr) *wire.M
 	if m.cur == nil {
 		digestBefore = m.allocDigest(c)
 	}
+	mapped := c.MapPeersV6 && peer.IP.To4() != nil
+	c.MapPeersV6 = false
 	resp, _ := m.do(c, wire.MethodChannelBind, func(b *wire.Builder) {
 		b.Add(wire.AttrChannelNumber, []byte{byte(num >> 8), byte(num), 0, 0})
-		b.AddXorAddr(wire.AttrXORPeerAddress, peer.IP, peer.Port)
+		b.Add(wire.AttrXORPeerAddress, wire.EncodeXorAddr(peer.IP, peer.Port, b.TID, mapped))
 	})
+	if mapped {
+		m.Rec.FP("chanbind/peer-as-ipv4-mapped-ipv6")
+	}
 	code := codeOf(resp)
 	m.Rec.Tracef("%s ChannelBind(0x%04x,%s) alloc=%s -> %d", c.Name, num, peer, st, code)
 	m.Rec.Ev("req/channelbind")
@@ -1128,6 +1139,10 @@ func (m *Model) explain(exp []*Expect, em *emission) {
 	for _, e := range exp {
 		if e.Dir != em.Dir || !bytes.Equal(e.Data, em.Data) {
 			continue
+		}
+		if em.Dir == "p2c" && em.Kind == "chan" && e.AllowChan != em.Chan {
+			// ChannelData toward a client under a number that is not (or no longer) bound to the sender
+			m.Rec.Violate("emit-chan-unbound", e.Reason, "ChannelData 0x%04x reached %s for a datagram of %s, but that number is not bound to this peer now (model: %s): %s", em.Chan, em.ToAddr, e.Peer, e.Reason, e.desc)
 		}
 		switch {
 		case emissionMatches(e, em) && e.matched > 0:
